@@ -8,11 +8,17 @@ IMPORTS = ("From Coq Require Import List Ascii String NArith ZArith Bool.\n"
            "From Galaxy.Corr Require Import CorrBase C12c.\n")
 
 THEOREMS = ["selection_order", "ifnames", "ifnames_distinct", "add_order", "del_retry", "del_retry_seq",
-            "isolation", "independence"]
+            "isolation", "payload_ok_meaning", "independence"]
 REFUTED = ["isolation_refuted"]
 DEPS = ["Strs", "Nets", "Pool", "Cni", "CniP", "CorrBase", "C12c", "C12"]
 
-KNOWN_FINDINGS = []
+KNOWN_FINDINGS = [
+    {"id": "F7", "status": "fixed", "commit": "6dc20c6", "tag": "c12-shared-netconf-prevresult",
+     "what": "fixed: property=C12 6dc20c6 getNetworkConf handed out the daemon's shared network-config map and CmdAdd wrote "
+             "prevResult into it: a container whose first network was an earlier container's later network received that "
+             "container's prevResult (ADD cid7 pod 'net1,net2'; ADD cid8 pod 'net2' -> cid8 got cid7's result); witness "
+             "isolation_refuted, corpus scenario 0"},
+]
 
 ANN = "k8s.v1.cni.cncf.io/networks"
 EXT = "k8s.v1.cni.galaxy.io/args"
